@@ -464,6 +464,13 @@ fn gen_ops(r: &mut Rng, cfg: &RunCfg, tier: Tier, big_max: u32) -> Vec<Op> {
 		"admin" => w.admin = 6,
 		_ => {},
 	}
+	if cfg.cols.iter().any(|c| c.kind == ColKind::BtreeRc) {
+		// Counts of a ref-counted btree column cannot be observed (no value iteration), so the
+		// prefix a crash recovered to would be ambiguous: such runs have no crash faults.
+		w.crash = 0;
+		w.ioerr = 0;
+		w.logfuzz = 0;
+	}
 	let mut pipe = Pipe { reindex_bias: scenario == "reindex", ..Pipe::default() };
 	let mut ops = Vec::new();
 	let mut tree_state = crate::gen2::TreeGen::new(cfg);
